@@ -266,6 +266,11 @@ impl TransactionContext {
         self.handle.read().snapshot().clone()
     }
 
+    /// False once the transaction has been aborted behind the owner's back (VACUUM).
+    pub(crate) fn is_active(&self) -> bool {
+        self.handle.read().is_active()
+    }
+
     pub(crate) fn handle_cloned(&self) -> TransactionHandle {
         self.handle.read().clone() // Cloning the handle invalidates it access to the coordinator.
     }
